@@ -252,6 +252,7 @@ type trPkg struct {
 	lits     map[string]*ast.FuncLit // lifted closures: "outer.name" -> literal
 	litOrder []string
 	strLits  []string // string literals that became definitions (panic-aware units)
+	freeNames map[string]bool // identifiers used that are no local variable: each must be a definition of the unit
 }
 
 type trSig struct {
@@ -629,7 +630,7 @@ func (f *trFn) declare(name string) string {
 	return leanIdent(lean)
 }
 
-var leanKeywords = map[string]bool{"end": true, "from": true, "at": true, "by": true, "do": true, "then": true, "fun": true, "have": true, "show": true, "with": true, "where": true, "open": true, "set": true, "at_": true, "in": true, "match": true, "if": true, "else": true, "let": true, "def": true, "instance": true, "class": true, "structure": true, "type": true, "Type": true, "prefix": true, "local": true}
+var leanKeywords = map[string]bool{"end": true, "from": true, "at": true, "by": true, "do": true, "then": true, "fun": true, "have": true, "show": true, "with": true, "where": true, "open": true, "set": true, "at_": true, "in": true, "match": true, "if": true, "else": true, "let": true, "def": true, "instance": true, "class": true, "structure": true, "type": true, "Type": true, "prefix": true, "local": true, "theorem": true, "lemma": true, "example": true, "namespace": true, "section": true, "variable": true, "import": true, "mutual": true, "deriving": true, "universe": true, "macro": true, "syntax": true, "infix": true, "infixl": true, "infixr": true, "postfix": true, "notation": true, "attribute": true, "private": true, "protected": true, "partial": true, "unsafe": true, "return": true, "for": true, "unless": true, "try": true, "catch": true, "finally": true, "mut": true, "using": true, "calc": true, "suffices": true, "obtain": true, "extends": true, "abbrev": true, "inductive": true, "noncomputable": true, "axiom": true, "opaque": true, "export": true, "nomatch": true, "nofun": true, "termination_by": true, "decreasing_by": true, "omit": true, "include": true, "initialize": true, "elab": true, "Prop": true, "Sort": true, "forall": true, "exists": true, "this": true}
 
 func leanIdent(s string) string {
 	if leanKeywords[s] {
@@ -642,7 +643,11 @@ func (f *trFn) v(name string) string {
 	if l, ok := f.lookup(name); ok {
 		return leanIdent(l)
 	}
-	return leanIdent(name) // package-level constant of the same unit
+	if f.p.freeNames == nil {
+		f.p.freeNames = map[string]bool{}
+	}
+	f.p.freeNames[name] = true // must be a package-level name the unit emits (an enum constant, a listed constant or variable)
+	return leanIdent(name)
 }
 
 type cont func(ind string) string
@@ -2088,6 +2093,12 @@ func (f *trFn) assignedOuter(body []ast.Stmt) []string {
 			return
 		}
 	}
+	// this is a look ahead over statements whose variables are not declared yet: names it fails to resolve are not uses
+	savedFree := map[string]bool{}
+	for k := range f.p.freeNames {
+		savedFree[k] = true
+	}
+	defer func() { f.p.freeNames = savedFree }()
 	ast.Inspect(&ast.BlockStmt{List: body}, func(n ast.Node) bool {
 		switch s := n.(type) {
 		case *ast.AssignStmt:
@@ -3435,6 +3446,19 @@ func translateUnit(u trUnit) (out string) {
 		}
 		sb.WriteString(fb.String())
 		fmt.Fprintf(&sb, "end Dtail.Gen.%s\n\n", u.ns)
+		// every identifier that is no local variable must be a definition this unit emits: a package-level constant or
+		// variable the unit does not list would leave the generated file with an unknown name (and take every unit with it)
+		text := sb.String()
+		var missing []string
+		for name := range p.freeNames {
+			if !regexp.MustCompile(`(?m)^def ` + regexp.QuoteMeta(leanIdent(name)) + `[ :]`).MatchString(text) {
+				missing = append(missing, name)
+			}
+		}
+		if len(missing) > 0 {
+			sort.Strings(missing)
+			trFail(nil, "%s uses package-level names outside the translated subset: %s", u.pkgDir, strings.Join(missing, ", "))
+		}
 	}
 	return sb.String()
 }
